@@ -240,5 +240,13 @@ def _reachable(bindings):
     return out
 
 
+def failing_pre(contract, bindings, universe=None):
+    """The first precondition clause that is false on these bindings (or None)."""
+    for pre in contract.requires:
+        if not evaluate(contract, pre, bindings, universe):
+            return pre
+    return None
+
+
 def satisfies_pre(contract, bindings, universe=None):
     return all(evaluate(contract, pre, bindings, universe) for pre in contract.requires)
